@@ -95,7 +95,17 @@ def judge(case, acc, ctx):
                 if os.path.lexists(inp):
                     os.unlink(inp)
                 os.symlink(f"real{i}.bin", inp)
-            if st.get("path") not in ("dotdot-after-symlink", "symlink-to-file"):
+            elif st.get("path") == "pattern-characters":
+                # a file name is a name: characters that mean something to shells and glob patterns ([1], {a,b}, leading ~, blanks) name this
+                # file - not the sibling the "pattern" would match, which holds other bytes
+                nm = ["env[1].suit", "app[v2].suit", "r[a-z]d.suit", "{a,b}.suit", "~env.suit", "a b.suit", "$env.suit", "e!n;v.suit"][(i + st["salt"]) % 8]
+                for decoy in ("env1.suit", "app2.suit", "appv.suit", "rad.suit", "a.suit", "b.suit", "a", "env.suit"):
+                    with open(os.path.join(d, decoy), "wb") as fh:
+                        fh.write(b"decoy sibling that a pattern reading of the name would match " + decoy.encode())
+                inp = os.path.join(d, nm)
+                with open(inp, "wb") as fh:
+                    fh.write(data)
+            if st.get("path") not in ("dotdot-after-symlink", "symlink-to-file", "pattern-characters"):
                 with open(inp, "wb") as fh:
                     fh.write(data)
             # the steps of a sequence write to the SAME two output paths (a build directory is reused), or to fresh ones
@@ -155,7 +165,7 @@ def step_s():
         "size": st.one_of(st.sampled_from(SIZES), st.integers(0, 300), st.integers(0, 300 * 1024)),
         "salt": st.integers(0, 10**6),
         "fill": st.sampled_from(FILLS + ["rand", "rand"]),
-        "path": st.sampled_from(["plain", "plain", "plain", "dotdot-after-symlink", "symlink-to-file"]),
+        "path": st.sampled_from(["plain", "plain", "plain", "dotdot-after-symlink", "symlink-to-file", "pattern-characters"]),
         "paddr": addr, "iaddr": addr,
         "caches": st.one_of(st.integers(0, 16), st.sampled_from([0, 6, 16])),
     })
@@ -201,6 +211,6 @@ def replay(ctx, check, case):
 
 def finalize(ctx, m, ev):
     c = m["counters"]
-    for n in ["size:0", "size:65536", "size:65537", "caches:0", "caches:16", "crossing-64k", "addr-zero", "top-of-memory", "route:cli", "route:api", "step:2", "fill:ff", "fill:ff-runs", "fill:ff-tail", "fill:zero", "fill:envelope+trailer", "fill:two-envelopes", "path:dotdot-after-symlink", "path:symlink-to-file"]:
+    for n in ["size:0", "size:65536", "size:65537", "caches:0", "caches:16", "crossing-64k", "addr-zero", "top-of-memory", "route:cli", "route:api", "step:2", "fill:ff", "fill:ff-runs", "fill:ff-tail", "fill:zero", "fill:envelope+trailer", "fill:two-envelopes", "path:dotdot-after-symlink", "path:symlink-to-file", "path:pattern-characters"]:
         if not c.get(n):
             raise boot.HarnessError(f"interesting class {n} is empty")
